@@ -439,7 +439,16 @@ pub fn run_trace(cfg: &Cfg, real_delay: bool) -> Vec<String> {
             // wall-clock time is not an input of the simulation: the second run of a twin
             // lets real time pass (after the build, and after the controller's bounces)
             if real_delay && (k == 0 || k == 16) {
-                std::thread::sleep(Duration::from_millis(if k == 0 { 4 } else { 8 }));
+                // with manual deliveries pending (script 5) real time is pushed beyond
+                // simulated time, so a wall-clock stamp on a hand-delivered message shows
+                let ms = if k == 0 {
+                    4
+                } else if cfg.script == 5 {
+                    cfg.tick_ms * 16 + 6
+                } else {
+                    8
+                };
+                std::thread::sleep(Duration::from_millis(ms));
             }
             // controller script
             match (cfg.script, k) {
